@@ -288,7 +288,7 @@ impl Property for C19 {
         o.alpha = Alpha::NoCtl;
         o.attr_alpha = Alpha::NoCtl;
         o.scoping = if src.bool() { Scoping::Well } else { Scoping::Free };
-        o.xml_attrs = false;
+        o.xml_attrs = true;
         let mut doc = if ctx.knobs.variant == 1 {
             match src.choice(6) {
                 0 => ANode::Text(gen::gen_text(src, Alpha::NoCtl, 4)),
